@@ -13,44 +13,44 @@ def _c(text, technique, note=""):
 
 
 CLAIMS = {
-    "C01": _c("(sixth seeded round also: the override cursor is used before any nested walk; the constant folder reads list[i] from the selected element; list.sum has at least w + ceil(log2 n) bits (decided on the bit_length / shift-loop idioms).) (after two seeded rounds also: conjunction folds keep earlier statements, the foreach copier copies every operand and has a handler for every expression kind, facade operators have a fixed expression-stack effect.) Hard constraints are assumed, checked and asserted before any randomising bit is tried, bits are asserted only "
+    "C01": _c("(seventh seeded round also: unique_vec compares all pairs; the copier never returns its input in copy mode.) (sixth seeded round also: the override cursor is used before any nested walk; the constant folder reads list[i] from the selected element; list.sum has at least w + ceil(log2 n) bits (decided on the bit_length / shift-loop idioms).) (after two seeded rounds also: conjunction folds keep earlier statements, the foreach copier copies every operand and has a handler for every expression kind, facade operators have a fixed expression-stack effect.) Hard constraints are assumed, checked and asserted before any randomising bit is tried, bits are asserted only "
               "after a SAT answer that included them, the model is read back only in a SAT state; every binary opcode lowers "
               "to the reference Boolector operator with both-signed extension; every constraint statement is attached to a "
               "rand set and survives rand-set merges; enum domains are asserted.",
               "typestate abstract interpretation of the solver protocol; partial evaluation of the opcode dispatcher; "
               "visitor-dispatch and merge-completeness analysis",
               "Value-level arithmetic of part-select / sum widths not decided."),
-    "C02": _c("(sixth seeded round also: enum domains are an Or over all enumerators; a field added to a rand set is recorded in the field map; the dispose visitor reaches fields through accept.) (also: the constant folder evaluates every expression kind itself and every operator it applies is defined on the value class; no expansion reads a list size that is being solved - three known findings.) SolveFailure is raised exactly on the hard not-SAT branch (all its sub-paths) and nowhere else; soft and swizzle "
+    "C02": _c("(seventh seeded round also: the failure clean-up covers every rand set; unique_vec folds positions with Or.) (sixth seeded round also: enum domains are an Or over all enumerators; a field added to a rand set is recorded in the field map; the dispose visitor reaches fields through accept.) (also: the constant folder evaluates every expression kind itself and every operator it applies is defined on the value class; no expansion reads a list size that is being solved - three known findings.) SolveFailure is raised exactly on the hard not-SAT branch (all its sub-paths) and nowhere else; soft and swizzle "
               "sections can never raise it; every expression class answers build/width/is_signed/accept; every accept reaches an "
               "existing visitor handler.",
               "typestate abstract interpretation; class-table exhaustiveness; dispatch closure",
               "Completeness of Boolector itself is assumed."),
-    "C03": _c("(sixth seeded round also: a scalar field is used-random only through set_used_rand; a list is pre-extended only when its size is solved; list[i] is folded from the selected element.) (also: the used-rand walk below a composite is unconditional; everything build() memoises is reset on both exits of a solve; declared-rand is never derived from the per-call flag.) The used-as-random formula equals is_rand and ((declared and rand_mode) or level==0) on all 16 valuations, is "
+    "C03": _c("(seventh seeded round also: the failure clean-up covers every rand set; caches built from the size are dropped.) (sixth seeded round also: a scalar field is used-random only through set_used_rand; a list is pre-extended only when its size is solved; list[i] is folded from the selected element.) (also: the used-rand walk below a composite is unconditional; everything build() memoises is reset on both exits of a solve; declared-rand is never derived from the per-call flag.) The used-as-random formula equals is_rand and ((declared and rand_mode) or level==0) on all 16 valuations, is "
               "propagated down the tree, recomputed before anything reads it; field values are written during a call only at the "
               "whitelisted, guarded sites; non-random fields enter the solver as constants of their current value.",
               "truth-table partial evaluation; effect (who-may-write) closure over the call graph; dominance facts in do_randomize"),
-    "C04": _c("(sixth seeded round also: max propagators read the last interval; every facade method that changes the object array changes the model array; sum width.) (also: size-dependent caches are invalidated after the solve, pre-extended elements are dropped, the foreach copier is complete; sum/product over a random-size list read a stale size - recorded as known findings.) List facade operations are bounded by the size field, the sum/product expansions and their solver caches are reset on "
+    "C04": _c("(seventh seeded round also: every under-populated object list gets its size limit.) (sixth seeded round also: max propagators read the last interval; every facade method that changes the object array changes the model array; sum width.) (also: size-dependent caches are invalidated after the solve, pre-extended elements are dropped, the foreach copier is complete; sum/product over a random-size list read a stale size - recorded as known findings.) List facade operations are bounded by the size field, the sum/product expansions and their solver caches are reset on "
               "both exits, foreach is unrolled over the list's elements with the index bound before the body is visited.",
               "def-use and snapshot-read analysis; effect analysis of cache attributes",
               "Whether each unrolled body holds is value-level."),
-    "C05": _c("(sixth seeded round also: a constant-false if walks whatever else side exists; soft-constraint guards are combined as Booleans.) (also: only soft constraints and the guard wrapper built around one carry the marker RandSet uses to file a statement as soft.) Soft constraints are only asserted after a SAT answer that included them, never raise SolveFailure; the fallback "
+    "C05": _c("(seventh seeded round also: solver nodes are built for all fields of a rand set; the copier never returns its input.) (sixth seeded round also: a constant-false if walks whatever else side exists; soft-constraint guards are combined as Booleans.) (also: only soft constraints and the guard wrapper built around one carry the marker RandSet uses to file a statement as soft.) Soft constraints are only asserted after a SAT answer that included them, never raise SolveFailure; the fallback "
               "walks the soft list in descending priority after the sort; priorities are cleared per call and only incremented; soft "
               "guards are pushed/popped in balance; `soft` is forwarded verbatim by every container build().",
               "typestate abstract interpretation; stack-balance interpretation; constant propagation of the soft flag"),
-    "C06": _c("(sixth seeded round also: conjunction folds of a block keep what earlier statements contributed.) (also: nothing derived from one instance's block is cached on the per-class wrappers apart from the known `model` slot - known finding FT6D; dynamic-constraint index tables index their own list.) Both randomize_with managers push/pop in balance on every exit and pass the popped block only to that call; dynamic "
+    "C06": _c("(seventh seeded round also: the rollback visitor cannot skip part of the walk; no model builds to true because it is disabled.) (sixth seeded round also: conjunction folds of a block keep what earlier statements contributed.) (also: nothing derived from one instance's block is cached on the per-class wrappers apart from the known `model` slot - known finding FT6D; dynamic-constraint index tables index their own list.) Both randomize_with managers push/pop in balance on every exit and pass the popped block only to that call; dynamic "
               "constraints are stored apart, expanded in place, and resolved per instance.",
               "stack-balance abstract interpretation with exceptional edges; ownership (who-may-write) analysis"),
-    "C07": _c("(sixth seeded round also: no pass-gated return skips a descent; post_randomize runs after the rollback; the rollback visitor never gates on `enabled`.) (also: blocks are elaborated from the instance's own attribute list with no class-level memo; the solve and its callbacks start with expression mode left.) constraint_mode writes only the instance's block model; disabled blocks are skipped by both semantic visitors; "
+    "C07": _c("(seventh seeded round also: rand-set merges move all fields; construction stacks balanced on body exceptions.) (sixth seeded round also: no pass-gated return skips a descent; post_randomize runs after the rollback; the rollback visitor never gates on `enabled`.) (also: blocks are elaborated from the instance's own attribute list with no class-level memo; the solve and its callbacks start with expression mode left.) constraint_mode writes only the instance's block model; disabled blocks are skipped by both semantic visitors; "
               "`enabled` has three writers only.",
               "who-may-write effect analysis; guard-dominance check in the two visitors"),
-    "C08": _c("(sixth seeded round also: an appended element inherits the list's random-ness; object-list element assignment updates the model.) (also: visitor state saved around nested composites is restored; per-call rewrites never outlive a failed call.) Composite index tables are assigned before the append; used-rand propagates only through declared-random composites; "
+    "C08": _c("(seventh seeded round also: the model update of a list method is not more conditional than the facade update.) (sixth seeded round also: an appended element inherits the list's random-ness; object-list element assignment updates the model.) (also: visitor state saved around nested composites is restored; per-call rewrites never outlive a failed call.) Composite index tables are assigned before the append; used-rand propagates only through declared-random composites; "
               "sub-object blocks are visited only under used-random composites; indexed references walk child indices from the root.",
               "def-use order analysis; truth table; guard dominance"),
-    "C09": _c("(sixth seeded round also: no used-random forcing outside the root call (diagnostics included); a diagnostic block never rebinds a local the solve path reads.) (also: no per-call visitor leaves state on the objects it visits; per-call rewrites are rolled back on every exit.) Every random draw reachable from do_randomize goes through the RandState; no iteration over set-typed containers on "
+    "C09": _c("(seventh seeded round also: dist bucket draws use the caller's state; randint returns a draw from [low, high].) (sixth seeded round also: no used-random forcing outside the root call (diagnostics included); a diagnostic block never rebinds a local the solve path reads.) (also: no per-call visitor leaves state on the objects it visits; per-call rewrites are rolled back on every exit.) Every random draw reachable from do_randomize goes through the RandState; no iteration over set-typed containers on "
               "the solve path; diagnostic-guarded statements have no effect on model, rand state or solver; get/set_randstate clone.",
               "call-graph reachability + receiver typing of RNG calls; set-iteration lint over reachable functions; effect analysis of debug-guarded code",
               "Assumes Boolector is deterministic for an identical API call sequence."),
-    "C10": _c("(sixth seeded round also: a pushed cache value is marked valid and type-level clones carry no iff; equals() rejects when any component differs.) (also: a bin container hands each child its own base plus the bins before it; in-place merge loops re-examine the merged range.) Every bin model's sample() sets its hit marker on all paths and reports hits with (bin_idx_base + offset, bin_type); "
+    "C10": _c("(seventh seeded round also: the signed auto-bin range includes the minimum.) (sixth seeded round also: a pushed cache value is marked valid and type-level clones carry no iff; equals() rejects when any component differs.) (also: a bin container hands each child its own base plus the bins before it; in-place merge loops re-examine the merged range.) Every bin model's sample() sets its hit marker on all paths and reports hits with (bin_idx_base + offset, bin_type); "
               "coverage_ev dispatches exhaustively over the bin kinds and increments exactly one counter; sampling is gated by the iff cache; "
               "bins get contiguous bases.",
               "sibling comparison of the bin-model protocol; partial evaluation of coverage_ev; control-dependence checks",
@@ -58,7 +58,7 @@ CLAIMS = {
     "C11": _c("(sixth seeded round also: a pushed cache value is marked valid; type-level clones carry no iff.) (also: the value of a callable iff reaches the truth test unchanged; child bin bases are cumulative.) The single cross increment is control-dependent on cross iff, each coverpoint's iff and a found hit per coverpoint; the key "
               "is built in coverpoint order; coverpoints are sampled before crosses and markers reset after every sample.",
               "control-dependence and ordering analysis"),
-    "C12": _c("(sixth seeded round also: a pushed cache value is marked valid; type-level clones carry no iff; equals() rejects when any component differs.) (also: the registry's shape search examines every registered type; bin hit markers are reset on a miss.) register_cg sets type_cg and appends the instance on every path; equals() compares what clone() copies and fails on length "
+    "C12": _c("(seventh seeded round also: sub-bin sizes are read through get_n_bins().) (sixth seeded round also: a pushed cache value is marked valid; type-level clones carry no iff; equals() rejects when any component differs.) (also: the registry's shape search examines every registered type; bin hit markers are reset on a miss.) register_cg sets type_cg and appends the instance on every path; equals() compares what clone() copies and fails on length "
               "mismatch; hit counters are only incremented; get_coverage depends on at_least/weight.",
               "sibling comparison of equals/clone; who-writes effect analysis; value-dependence analysis"),
     "C13": _c("(sixth seeded round also: type scopes are named by the type name and weights are handed on unconverted.) In every bin loop of the save visitor the count, name and hit getters and the UCIS kind belong to one category; the "
@@ -66,24 +66,24 @@ CLAIMS = {
               "coverage-model attribute.",
               "category-agreement check; effect closure",
               "PyUCIS internals are outside /repo."),
-    "C14": _c("(sixth seeded round also: the signed base domain includes the most negative value.) (also: interval coalescing keeps the larger upper bound, bound builders are called with the expression's own operator, enum domains are sorted, propagators keep no state on persistent expressions.) Predicate visitors are monotone; bound propagators are only built at statement depth 0 and their op tables "
+    "C14": _c("(seventh seeded round also: no memo on visited nodes; swizzle candidates are not truncated before the pick.) (sixth seeded round also: the signed base domain includes the most negative value.) (also: interval coalescing keeps the larger upper bound, bound builders are called with the expression's own operator, enum domains are sorted, propagators keep no state on persistent expressions.) Predicate visitors are monotone; bound propagators are only built at statement depth 0 and their op tables "
               "over-approximate; disabled blocks are skipped; the unconstrained draw and the swizzler take their range from the bound map.",
               "monotonicity check; partial evaluation of propagator tables; depth-counter balance",
               "Interval arithmetic of the propagators is value-level."),
-    "C15": _c("(sixth seeded round also: only soft constraints and their guard wrappers carry the soft marker.) (also: the swizzler's candidate list holds used-random fields only; the dist rewrite is rolled back on every exit.) The dist rewrite adds membership over every weight plus an exclusion per zero weight as hard statements and always "
+    "C15": _c("(seventh seeded round also: every element kind of an inside list builds its own term; next_target_range always draws.) (sixth seeded round also: only soft constraints and their guard wrappers carry the soft marker.) (also: the swizzler's candidate list holds used-random fields only; the dist rewrite is rolled back on every exit.) The dist rewrite adds membership over every weight plus an exclusion per zero weight as hard statements and always "
               "installs the override; zero weights are filtered from the selection list; dist scopes are registered with the field's "
               "rand set and survive merges.",
               "path analysis of the dist builder; merge-completeness",
               "Frequencies are not decided."),
-    "C16": _c("(sixth seeded round also: the dispose visitor reaches fields through accept; the rollback reaches disabled blocks.) (also: every diagnostics session disposes what it built; callbacks start with the mode stacks idle.) Every function has net effect 0 on the five global stacks on every exit including exceptional exits at user-code call "
+    "C16": _c("(seventh seeded round also: two-operand constructors pop before the second conversion.) (sixth seeded round also: the dispose visitor reaches fields through accept; the rollback reaches disabled blocks.) (also: every diagnostics session disposes what it built; callbacks start with the mode stacks idle.) Every function has net effect 0 on the five global stacks on every exit including exceptional exits at user-code call "
               "sites (context managers: +k on enter, -k on exit); overrides are rolled back in a finally; solver-handle attributes are "
               "reset on both exits of a solve.",
               "stack-balance abstract interpretation with exceptional edges at user callbacks; effect analysis of solver-handle attributes"),
-    "C17": _c("(sixth seeded round also: an appended element inherits the list's random-ness; model building skips only dunder/_int names.) (also: declared-rand of appended elements comes from the declaration; callbacks run outside expression mode.) The callback invocation sites are guarded by used-rand and rand_if; recursion is guarded by the visited list; "
+    "C17": _c("(seventh seeded round also: a list forwards set_used_rand unconditionally.) (sixth seeded round also: an appended element inherits the list's random-ness; model building skips only dunder/_int names.) (also: declared-rand of appended elements comes from the declaration; callbacks run outside expression mode.) The callback invocation sites are guarded by used-rand and rand_if; recursion is guarded by the visited list; "
               "pre_randomize propagation precedes bounds/array expansion/solve, post_randomize follows the rollback; each appears in "
               "exactly one loop over the roots.",
               "dominance/ordering facts in do_randomize; guard checks; call-path counting"),
-    "C18": _c("(sixth seeded round also: enum domains are an Or over all enumerators.) (also: a field model is built once - unguarded build_field_model only where every override keeps an existing model; the enumerator table is keyed by the enum class.) Every facade write path passes a width-masked value; attribute access routes through get_val/set_val outside raw "
+    "C18": _c("(seventh seeded round also: randint returns a draw from [low, high].) (sixth seeded round also: enum domains are an Or over all enumerators.) (also: a field model is built once - unguarded build_field_model only where every override keeps an existing model; the enumerator table is keyed by the enum class.) Every facade write path passes a width-masked value; attribute access routes through get_val/set_val outside raw "
               "mode; enum writes convert with e2v and reads with v2e.",
               "value-dependence (def-use) analysis of the write paths; sibling comparison",
               "Bit arithmetic of part-select is value-level."),
@@ -91,7 +91,7 @@ CLAIMS = {
               "(value, mask) roles agree at every consumer; the wildcard bin's sample follows the bin protocol.",
               "partial evaluation of the parser arms; role-flow analysis",
               "That valmask2binlist enumerates exactly the matching values is value-level and not decided."),
-    "C20": _c("(sixth seeded round also: bound offsets for `expr >= var`; a field added to a rand set is recorded in the field map.) (also: the expansion of a directive is recomputed per call and visits both sides unconditionally.) solve_order's before/after arguments reach the element/key positions of the dependency map in that direction, are "
+    "C20": _c("(seventh seeded round also: no class-level container is shared through self.) (sixth seeded round also: bound offsets for `expr >= var`; a field added to a rand set is recorded in the field map.) (also: the expansion of a directive is recomputed per call and visits both sides unconditionally.) solve_order's before/after arguments reach the element/key positions of the dependency map in that direction, are "
               "consumed in pass 0 only and contribute no formula; ordered groups are swizzled in list order inside the same protocol.",
               "role-flow analysis; typestate (shared with C01)",
               "Every statement about probabilities is not decided."),
